@@ -129,6 +129,59 @@ fn main() {
     // 2. the generated checks
     (m.run)(&mut cx);
 
+    // 2b. thorough tier of the "never panics / never corrupts" properties: the same sub-checks again (quick-sized) in a
+    //     child process built with debug assertions and overflow checks off (profile `nodebug`), where a wrapped index
+    //     or an unchecked cast shows as different behaviour instead of a panic
+    const SECOND_BUILD: [&str; 6] = ["C02", "C04", "C11", "C12", "C16", "C19"];
+    if tier == Tier::Thorough && SECOND_BUILD.contains(&m.id) && std::env::var_os("RFVERIF_NODEBUG_CHILD").is_none() {
+        let t0 = Instant::now();
+        let harness = std::path::PathBuf::from(VERIF_DIR);
+        let mut obs = Obs::new();
+        let built = std::process::Command::new("cargo")
+            .args(["build", "--profile", "nodebug", "--manifest-path"])
+            .arg(harness.join("Cargo.toml"))
+            .env("CARGO_NET_OFFLINE", "true")
+            .current_dir(verif_root())
+            .output();
+        let bin = harness.join("target").join("nodebug").join("rfverif");
+        let note = match built {
+            Ok(o) if o.status.success() && bin.exists() => {
+                match std::process::Command::new(&bin).args([m.id, "quick"]).env("RFVERIF_NODEBUG_CHILD", "1").env("VERIF_SEED", format!("{}", seed as i128)).env("RUST_BACKTRACE", "0").output() {
+                    Ok(o) => {
+                        let out = String::from_utf8_lossy(&o.stdout).to_string();
+                        let code = o.status.code().unwrap_or(2);
+                        let ev: Value = std::fs::read_to_string(verif_root().join("evidence").join(format!("{}.json", m.id))).ok().and_then(|s| serde_json::from_str(&s).ok()).unwrap_or(Value::Null);
+                        let evals = ev["coverage"]["evaluations"].as_u64().unwrap_or(0);
+                        obs.evals_n(evals);
+                        obs.nontrivial_enumerated(ev["coverage"]["distinct_nontrivial"].as_u64().unwrap_or(0));
+                        cx.extra.insert("nodebug_build".into(), serde_json::json!({"exit_code": code, "evaluations": evals, "wall_s": ev["wall_s"]}));
+                        if code == 1 {
+                            let lines: Vec<&str> = out.lines().collect();
+                            for (i, l) in lines.iter().enumerate() {
+                                if let Some(rest) = l.strip_prefix("VIOLATION ") {
+                                    let replay = rest.split("replay=").nth(1).unwrap_or("").trim().to_string();
+                                    let detail = lines.get(i + 1).map(|s| s.trim().to_string()).unwrap_or_default();
+                                    println!("VIOLATION property={} replay={replay}", m.id);
+                                    println!("  (build without overflow checks / debug assertions) {detail}");
+                                    cx.violations.push(Violation { sub: "nodebug-build".into(), msg: detail, replay: std::path::PathBuf::from(replay) });
+                                }
+                            }
+                            "second build (checks off): VIOLATION".to_string()
+                        } else if code == 0 {
+                            "second build (debug assertions and overflow checks off): quick-sized sub-checks in a child process".to_string()
+                        } else {
+                            format!("second build ran but was inconclusive (exit {code})")
+                        }
+                    }
+                    Err(e) => format!("second build could not be started: {e}"),
+                }
+            }
+            Ok(_) => "second build (profile nodebug) failed to build — skipped, not a failure".to_string(),
+            Err(e) => format!("second build unavailable: {e}"),
+        };
+        cx.report("nodebug-build", obs, false, t0.elapsed().as_secs_f64(), &note);
+    }
+
     // 3. open findings: say so, once each
     for (p, sig, what) in cx.known.open.clone() {
         if p == m.id {
